@@ -523,6 +523,18 @@ pub struct C10Replay {
     pub target: World,
     pub target_tags: Vec<String>,
     pub bytes_hex: String,
+    /// "" | "repeat" | "probe": what follows the faulty load in this case
+    #[serde(default)]
+    pub followup: String,
+    #[serde(default)]
+    pub image_hex: String,
+    #[serde(default)]
+    pub image_world: Option<World>,
+    #[serde(default)]
+    pub alt_tags: Vec<String>,
+    /// faulty loads that preceded this case since the target was last rebuilt (oldest first)
+    #[serde(default)]
+    pub pre_hex: Vec<String>,
     #[serde(default)]
     pub violation: Option<Violation>,
     #[serde(default)]
@@ -624,6 +636,8 @@ pub struct C10Stats {
     pub max_request: u64,
     pub max_peak: u64,
     pub rebuilds: u64,
+    #[serde(default)]
+    pub last_err: bool,
     pub per_kind: std::collections::BTreeMap<String, u64>,
 }
 
@@ -666,6 +680,7 @@ pub fn run_case(t: &mut Target, kind: &str, bytes: &[u8], pristine: bool, st: &m
         st.rebuilds += 1;
         return Some(v);
     }
+    st.last_err = res.is_err();
     match res {
         Err(_) => {
             st.load_err += 1;
@@ -757,6 +772,82 @@ pub struct BufferSet {
     pub space: FaultSpace,
     pub target_world: World,
     pub target_tags: Vec<String>,
+    /// the world the pristine (new) image was serialized from
+    pub world_a: World,
+}
+
+/// What an engine that successfully loaded the pristine image A must answer (under `tags`, with the
+/// target's resources and probe set): the answers of an engine built from A's rule list.
+pub fn reference_answers(bs: &BufferSet, tags: &[String]) -> u64 {
+    let wa = &bs.world_a;
+    let s = Sut::build(&wa.rules, &bs.target_world.resources, wa.knobs.optimize, wa.knobs.debug, 0, false, None);
+    let mut e = match s {
+        Sut::Engine(e) => *e,
+        _ => unreachable!(),
+    };
+    let tv: Vec<&str> = tags.iter().map(|s| s.as_str()).collect();
+    e.use_tags(&tv);
+    let reqs = Reqs::new(&bs.target_world);
+    full_answers(&e, &bs.target_world, &reqs, false)
+}
+
+/// A fault-free load right after faulty ones: the pristine image must load and the engine must then
+/// behave like the engine the image was taken from, whatever failed or succeeded before. The caller's
+/// tags are switched first, so state smuggled from an earlier load shows.
+pub fn probe_load(t: &mut Target, bs: &BufferSet, alt_tags: &[String], want: u64, st: &mut C10Stats) -> Option<Violation> {
+    *st.per_kind.entry("fault_free_load_after_faults".to_string()).or_insert(0) += 1;
+    let r = catch_unwind(AssertUnwindSafe(|| {
+        let tv: Vec<&str> = alt_tags.iter().map(|s| s.as_str()).collect();
+        t.engine.use_tags(&tv);
+        let r = t.engine.deserialize(&bs.space.a);
+        let tags_ok = t.w.tags.iter().all(|x| t.engine.tag_exists(x) == alt_tags.contains(x));
+        (r.is_ok(), tags_ok, full_answers(&t.engine, &t.w, &t.reqs, false))
+    }));
+    let v = match r {
+        Err(_) => Some(viol("no-panic", "panic in fault-free load after faulty loads".into(), last_panic(), "Ok".into())),
+        Ok((false, _, _)) => Some(viol("valid-load-after-faults", "deserialize pristine buffer after faulty loads".into(), "Err".into(), "Ok".into())),
+        Ok((true, false, _)) => Some(viol("valid-load-after-faults", "tags after pristine load following faulty loads".into(), "enabled tag set changed".into(), "the caller's enabled set".into())),
+        Ok((true, true, got)) => {
+            if got != want {
+                Some(viol("valid-load-after-faults", "answers after pristine load following faulty loads".into(), format!("digest {:x}", got), format!("digest {:x} (engine built from the rule list of the image)", want)))
+            } else {
+                None
+            }
+        }
+    };
+    *t = Target::build(&t.w.clone(), &t.tags.clone());
+    st.rebuilds += 1;
+    v
+}
+
+/// The same bytes offered twice in a row must give the same outcome (Err again).
+pub fn repeat_load(t: &mut Target, bytes: &[u8], st: &mut C10Stats) -> Option<Violation> {
+    *st.per_kind.entry("repeated_faulty_load".to_string()).or_insert(0) += 1;
+    // (the target was rebuilt if the first load succeeded, so this is again the first offer then)
+    let r = catch_unwind(AssertUnwindSafe(|| (t.engine.deserialize(bytes).is_err(), t.engine.deserialize(bytes).is_err())));
+    if !st.last_err {
+        // the first offer succeeded (and the target was rebuilt since): nothing to compare
+        if let Ok((false, _)) = r {
+            *t = Target::build(&t.w.clone(), &t.tags.clone());
+            st.rebuilds += 1;
+        }
+        return None;
+    }
+    // an Err must stay an Err however often the same bytes are offered
+    let r = r.map(|(a, b)| (true, a && b));
+    match r {
+        Err(_) => {
+            *t = Target::build(&t.w.clone(), &t.tags.clone());
+            st.rebuilds += 1;
+            Some(viol("no-panic", "panic in repeated load".into(), last_panic(), "same outcome".into()))
+        }
+        Ok((a, b)) if a != b => {
+            *t = Target::build(&t.w.clone(), &t.tags.clone());
+            st.rebuilds += 1;
+            Some(viol("atomic-on-error", format!("repeat same bytes twice [len={}]", bytes.len()), format!("first is_err={} second is_err={}", a, b), "the same outcome both times".into()))
+        }
+        Ok(_) => None,
+    }
 }
 
 /// Buffer `bi` of a batch: new image A, old image B and the (non-empty) target engine's world.
@@ -776,7 +867,7 @@ pub fn buffer_set(base: u64, bi: u64, n_sampled: u64) -> BufferSet {
     let b = bytes_of(&wb);
     let mut r = Rng::stream(seed, "c10");
     let tags: Vec<String> = wt.tags.iter().filter(|_| r.chance(50)).cloned().collect();
-    BufferSet { seed, space: FaultSpace::new(a, b, seed, n_sampled), target_world: wt, target_tags: tags }
+    BufferSet { seed, space: FaultSpace::new(a, b, seed, n_sampled), target_world: wt, target_tags: tags, world_a: wa }
 }
 
 pub fn replay_of(bs: &BufferSet, kind: &str, index: u64, bytes: &[u8], v: Option<Violation>) -> C10Replay {
@@ -788,6 +879,11 @@ pub fn replay_of(bs: &BufferSet, kind: &str, index: u64, bytes: &[u8], v: Option
         target: bs.target_world.clone(),
         target_tags: bs.target_tags.clone(),
         bytes_hex: hex(bytes),
+        followup: String::new(),
+        image_hex: String::new(),
+        image_world: None,
+        alt_tags: vec![],
+        pre_hex: vec![],
         violation: v,
         note: String::new(),
     }
@@ -804,7 +900,28 @@ pub fn execute_replay(rp: &C10Replay) -> Option<Violation> {
             adblock::verif_hooks::reset();
             let mut t = Target::build(&rp2.target, &rp2.target_tags);
             let mut st = C10Stats::default();
-            run_case(&mut t, &rp2.kind, &unhex(&rp2.bytes_hex), false, &mut st)
+            let bytes = unhex(&rp2.bytes_hex);
+            for pre in &rp2.pre_hex {
+                let _ = run_case(&mut t, "preceding", &unhex(pre), false, &mut st);
+            }
+            let mut v = run_case(&mut t, &rp2.kind, &bytes, false, &mut st);
+            if v.is_none() && !rp2.followup.is_empty() {
+                v = repeat_load(&mut t, &bytes, &mut st);
+                if v.is_none() && rp2.followup == "probe" {
+                    if let Some(wa) = &rp2.image_world {
+                        let bs = BufferSet {
+                            seed: rp2.seed,
+                            space: FaultSpace::new(unhex(&rp2.image_hex), vec![], rp2.seed, 0),
+                            target_world: rp2.target.clone(),
+                            target_tags: rp2.target_tags.clone(),
+                            world_a: wa.clone(),
+                        };
+                        let want = reference_answers(&bs, &rp2.alt_tags);
+                        v = probe_load(&mut t, &bs, &rp2.alt_tags, want, &mut st);
+                    }
+                }
+            }
+            v
         })
         .expect("spawn");
     match h.join() {
